@@ -2,7 +2,7 @@ import vp
 # (cpu, form name, text before operand, text after operand, max operand value, bytes per address, org)
 FORMS = [
  ("msp430", "mov_imm", "mov.w #", ", r5", 65535, 1), ("msp430", "add_imm", "add.w #", ", r6", 65535, 1), ("msp430", "cmpb_imm", "cmp.b #", ", r7", 255, 1),
- ("msp430", "mov_abs", "mov.w &", ", r5", 65535, 1), ("msp430", "push_imm", "push #", "", 65535, 1),
+ ("msp430", "mov_abs", "mov.w &", ", r5", 65535, 1), ("msp430", "push_imm", "push #", "", 65535, 1), ("msp430", "mov_idx", "mov.w ", "(r4), r5", 65535, 1), ("msp430", "add_idx_dst", "add.w r6, ", "(r7)", 65535, 1),
  ("6502", "lda", "lda ", "", 65535, 1), ("6502", "sta_x", "sta ", ",x", 65535, 1), ("6502", "ldx_y", "ldx ", ",y", 65535, 1),
  ("65816", "lda", "lda ", "", 65535, 1),
  ("6800", "ldaa", "ldaa ", "", 65535, 1), ("68hc08", "lda", "lda ", "", 65535, 1),
